@@ -102,6 +102,10 @@ def search(pid, tier, seed, escalate, hints):
             continue
         if r1['err'] is not None:
             continue
+        rw = reach_witness(sc, r1, r2)
+        if rw:
+            out.append(W('reach', rw))
+            continue
         if threshold_fragile(sc, r1) or threshold_fragile(sc2, r2):
             continue
         d = O.hist_equal(r1['rows'], r2['rows'], exact=False)
@@ -146,6 +150,31 @@ def search(pid, tier, seed, escalate, hints):
         if len([w for w in out if w['cls'] != 'D5']) >= 5:
             break
     return out, k
+
+
+def reach_witness(sc, r1, r2):
+    """scenarios under a ReachAngularPosition rule are not compared instant by instant (where braking starts is a threshold that moves
+    with the load torque), but WHEN braking starts must not depend on the units: the first instant at which the duty cycle leaves 1
+    may differ by a step or two, not by a tenth of the run"""
+    single = [op for op in sc['ops'] if op[0] == 'run']
+    if len(single) != 1 or not single[0][3] or len(single[0][3]) != 1 or single[0][3][0]['r'] != 'reach' or single[0][4]:
+        return None
+    if any(op[0] in ('setpwm',) for op in sc['ops']):
+        return None
+    a, b = r1['rows'], r2['rows']
+    if not a or not b or len(a) != len(b):
+        return None
+
+    def start(rows):
+        for k, r in enumerate(rows):
+            if r['pwm'] == r['pwm'] and abs(r['pwm'] - 1) > 1e-9:
+                return k
+        return len(rows)
+    ka, kb = start(a), start(b)
+    if abs(ka - kb) > max(3, len(a) // 10):
+        return (f'ReachAngularPosition: braking starts at instant {ka} of {len(a)} with the inputs as given and at instant {kb} after re-expressing '
+                f'them in other units')
+    return None
 
 
 def band_explains(elems, call):
